@@ -488,3 +488,20 @@ V('c03-bool-enum', 'C03', 'C03.R1',
   (XMLF, "        CIMElement.__init__(self, 'PROPERTY')\n\n        self.setName(name)\n        self.setAttribute('TYPE', type_)\n\n        self.setOptionalAttribute('CLASSORIGIN', class_origin)\n\n        if propagated is not None:\n            self.setAttribute('PROPAGATED', str(propagated).lower())",
          "        CIMElement.__init__(self, 'PROPERTY')\n\n        self.setName(name)\n        self.setAttribute('TYPE', type_)\n\n        self.setOptionalAttribute('CLASSORIGIN', class_origin)\n\n        if propagated is not None:\n            self.setAttribute('PROPAGATED', 'yes')"),
   'enum-value')
+
+# ---- C04.R4 / C02.R2a -------------------------------------------------------
+V('c04-path-not-stripped', 'C04', 'C04.R4',
+  (OPSF, "        if isinstance(instancename, CIMInstanceName):\n            instancename = instancename.copy()\n            instancename.host = None\n            instancename.namespace = None", "        if isinstance(instancename, CIMInstanceName):\n            instancename = instancename.copy()\n            instancename.host = None"),
+  'path-not-stripped')
+V('c04-not-normalised', 'C04', 'C04.R4',
+  (OPSF, "            ResultClass = self._iparam_classname(ResultClass, 'ResultClass')\n            Role = self._iparam_string(Role, 'Role')\n\n            result = self._imethodcall(", "            ResultClass = self._iparam_classname(ResultClass, 'ResultClass')\n\n            result = self._imethodcall("),
+  'not-normalised')
+V('c04-reader-child', 'C04', 'C04.R4',
+  (TPF, "                                     'QUALIFIER.DECLARATION', 'CLASS',\n                                     'INSTANCE', 'VALUE.NAMEDINSTANCE'))\n\n        _name = attrs(tup_tree)['NAME']", "                                     'QUALIFIER.DECLARATION', 'CLASS',\n                                     'INSTANCE'))\n\n        _name = attrs(tup_tree)['NAME']"),
+  'child-not-accepted')
+V('c02-none-result', 'C02', 'C02.R2a',
+  (OPSF, "        if result is None:\n            # _imethodcall() returns None for a response without any child\n            # elements; the checks below then report what is missing.\n            result = []\n", ""),
+  'none-result')
+V('c02-none-result-op', 'C02', 'C02.R2a',
+  (OPSF, "            if result is None:\n                instances = []\n            else:\n                instances = result[0][2]\n\n            for instance in instances:\n\n                if not isinstance(instance, CIMInstance):", "            instances = result[0][2]\n\n            for instance in instances:\n\n                if not isinstance(instance, CIMInstance):"),
+  'none-result')
